@@ -57,16 +57,21 @@ def task(name: str, prog: dict[str, Any]) -> dict[str, Any]:
             return {"status": "rejected", "what": type(e).__name__}
     err = closure_error(c)
     if err:
-        return {"status": "harness_error", "what": f"closure predicate fails on a real compilation result ({err}); the "
-                                                   f"S1 lemma's input model misses this shape:\n" + es_ast.to_text(prog)[:600]}
+        # a concrete compilation result that is not closed: replayable on the public API -> violation
+        return {"status": "violation", "kind": "closure", "program": prog,
+                "what": f"compilation result is not a closed, uniquely addressed op list: {err}",
+                "witness": {"text": es_ast.to_text(prog)[:800], "error": err}}
     return {"status": "ok", "routines": 0, "equal": 0, "sample": {"ops": sum(len(r) for r in c.routine_ops)}}
+
+
+def replay(name: str, prog_repr: str, witness: Any) -> bool:
+    return task(name, trun.parse_prog(prog_repr))["status"] != "violation"
 
 
 def run(tier: str, seed: int, known: list[dict[str, Any]]) -> dict[str, Any]:
     items = list(programs(tier, seed)) + list(f5_macros(tier, seed))
     r = trun.run_family("C03", "C03.E5", task, items, known, None, bounds="F1-F5 compilation results")
-    r["engine"] = "V"
-    r["headline"] = f"closure predicate holds on {r['programs'] - r['rejected_by_compiler'] - len(r['harness_errors'])} real " \
-                    f"compilation results of F1-F5 (model validation), {len(r['harness_errors'])} failures"
+    r["headline"] = f"closure predicate holds on {r['programs'] - r['rejected_by_compiler'] - r['disagreements_checked']} real " \
+                    f"compilation results of F1-F5, {r['disagreements_checked']} violations"
     r["obligations"] = r["discharged"] = r["distinct_nontrivial"] = 0
     return r
